@@ -285,7 +285,8 @@ Doc(lines, parser, section) ==
 Obj(kind, name) ==
   [kind |-> kind, name |-> name, lineno |-> "none", endlineno |-> "none", doc |-> NoDoc, labels |-> "empty",
    filepath |-> "na", bases |-> <<>>, decorators |-> <<>>, params |-> <<>>, returns |-> NoEV, value |-> NoEV,
-   annotation |-> NoEV, alineno |-> "none", aendlineno |-> "none", resolved |-> FALSE]
+   annotation |-> NoEV, alineno |-> "none", aendlineno |-> "none", resolved |-> FALSE,
+   runtime |-> TRUE]          \* Object.runtime: not serialised by as_dict, the loaders leave the default (True)
 Dec(ev, ln) == [value |-> ev, lineno |-> ln, endlineno |-> ln]
 Par(ann, def, doc) == [annotation |-> ann, default |-> def, doc |-> doc, kind |-> "poskw"]
 ParK(ann, def, doc, k) == [annotation |-> ann, default |-> def, doc |-> doc, kind |-> k]
@@ -491,7 +492,8 @@ Decode(j) == LET r == DecodeFrom(j) IN IF r.ok THEN Okay(<<[r.chain[1] EXCEPT !.
 \* =================================================================================================
 \* 6. The case space
 \* =================================================================================================
-VARIABLES dfield,                                                 \* field of a dataclass host: "na" | "plain" | "kw_true" | "kw_expr"
+VARIABLES guard,                                                  \* "none" | "typecheck" (defined under `if TYPE_CHECKING:`) | "stub" (exists in the merged .pyi only)
+          dfield,                                                 \* field of a dataclass host: "na" | "plain" | "kw_true" | "kw_expr"
           part,                                                   \* "shape" | "expr" | "doc"
           origin, kind, host, mname, doc, cwdrel,                 \* object level
           bases, deco, pann, pdef, pdoc, ret, val, ann, where,    \* kind specific alternatives
@@ -499,7 +501,7 @@ VARIABLES dfield,                                                 \* field of a 
           slot, spine, leaf,                                      \* expr part
           section,                                                \* doc part
           pc, chain, enc, dec, reenc, obs                         \* the run
-casevars == <<dfield, part, origin, kind, host, mname, doc, cwdrel, bases, deco, pann, pdef, pdoc, ret, val, ann, where,
+casevars == <<guard, dfield, part, origin, kind, host, mname, doc, cwdrel, bases, deco, pann, pdef, pdoc, ret, val, ann, where,
               alno, resolved, slot, spine, leaf, section>>
 vars == <<casevars, pc, chain, enc, dec, reenc, obs>>
 
@@ -559,10 +561,17 @@ CaseChoice ==
                     ELSE IF host = "class" THEN {"int", "span"} ELSE {"int", "span", "wild", "over"}
        /\ resolved \in IF kind = "alias" /\ origin = "static" /\ alno \in {"int", "span"} THEN BOOLEAN ELSE {FALSE}
        /\ slot = NA /\ spine = <<>> /\ leaf = NA /\ section = NA
+       \* objects not available at runtime: defined under `if TYPE_CHECKING:`, or present in the sibling stub file only
+       \* (the merger adds them); stub-only members are explored with constant-only fields
+       /\ guard \in IF origin = "static" /\ kind \in {"class", "function", "attribute"} /\ mname = "x" /\ host # "dataclass" /\ where = "container"
+                     THEN (IF host = "none" /\ bases \in {NA, "none"} /\ deco \in {NA, "none"} /\ pann \in {NA, "nopar"}
+                              /\ ret \in {NA, "none"} /\ val \in {NA, "str"} /\ ann \in {NA, "none"}
+                           THEN {"none", "typecheck", "stub"} ELSE {"none", "typecheck"})
+                     ELSE {"none"}
      ELSE IF part = "expr" THEN
        /\ origin = "static"
        /\ slot \in SlotSet /\ kind = SlotKind(slot)
-       /\ host = "none" /\ mname = "x" /\ doc = "absent" /\ dfield = NA
+       /\ host = "none" /\ mname = "x" /\ doc = "absent" /\ dfield = NA /\ guard = "none"
        /\ spine \in UNION {[1..n -> IF n > FullDepth THEN CoreSteps ELSE AllSteps] : n \in 0..(IF slot \in SpineSlots THEN MaxSpine ELSE 1)}
        /\ leaf \in IF Len(spine) >= 2 THEN DeepLeaves ELSE AllLeaves
        /\ SpineOK(spine, leaf)
@@ -572,7 +581,7 @@ CaseChoice ==
        /\ origin \in DocOrigins
        /\ kind \in IF origin = "static" THEN {"root", "class", "function", "attribute"} ELSE {"root", "class", "function"}
        /\ section \in SectionKinds
-       /\ host = "none" /\ mname = (IF kind = "root" THEN "pkg" ELSE "x") /\ doc = "google" /\ dfield = NA
+       /\ host = "none" /\ mname = (IF kind = "root" THEN "pkg" ELSE "x") /\ doc = "google" /\ dfield = NA /\ guard = "none"
        /\ bases = (IF kind = "class" THEN "none" ELSE NA) /\ deco = (IF kind \in {"class", "function"} THEN "none" ELSE NA)
        /\ pann = (IF kind = "function" THEN "nopar" ELSE NA) /\ pdef = NA /\ pdoc = FALSE
        /\ ret = (IF kind = "function" THEN "none" ELSE NA)
@@ -597,7 +606,7 @@ SubMod == [Obj("module", "sub") EXCEPT !.filepath = "path"]
 
 Focus ==
   LET k == kind
-      b == [Obj(k, mname) EXCEPT !.doc = DocOf(origin), !.lineno = LineOf(origin, k), !.endlineno = LineOf(origin, k)]
+      b == [Obj(k, mname) EXCEPT !.runtime = (guard = "none"), !.doc = DocOf(origin), !.lineno = LineOf(origin, k), !.endlineno = LineOf(origin, k)]
       scopeOf(ev) == IF where = "init" /\ ~IsScalar(ev.e) THEN EV(ev.e, "init") ELSE ev
   IN CASE k = "module" -> [b EXCEPT !.filepath = "path", !.lineno = "none", !.endlineno = "none"]
        [] k = "class" ->
@@ -767,7 +776,7 @@ Clean_ExpressionsSame == IsClean => ExpressionsSame
 \* 9. Case emission
 \* =================================================================================================
 CaseRec ==
-  [dfield |-> dfield, part |-> part, origin |-> origin, kind |-> kind, host |-> host, mname |-> mname, doc |-> doc, cwdrel |-> cwdrel,
+  [guard |-> guard, dfield |-> dfield, part |-> part, origin |-> origin, kind |-> kind, host |-> host, mname |-> mname, doc |-> doc, cwdrel |-> cwdrel,
    bases |-> bases, deco |-> deco, pann |-> pann, pdef |-> pdef, pdoc |-> pdoc, ret |-> ret, val |-> val, ann |-> ann,
    where |-> where, alno |-> alno, resolved |-> resolved, slot |-> slot, spine |-> spine, leaf |-> leaf, section |-> section,
    clean |-> obs.clean,
